@@ -49,6 +49,9 @@ FINALS = {
     "allowed": ("collections", "OrderedDict"),
     "added": ("collections", "Counter"),
     "forbidden": ("vp_sink", "hit"),
+    # protocol >= 4 resolves a dotted name as an attribute path: these start at allow-listed names
+    "dotted-allowed-prefix": ("collections", "OrderedDict.fromkeys"),
+    "dotted-globals": ("argparse", "Namespace.__init__.__globals__"),
 }
 ENTRIES = ["pickle.load", "pickle.loads", "_pickle.load", "_pickle.loads"]
 
@@ -61,11 +64,18 @@ def inner_payload(kind, final, torch):
     """bytes of the innermost container, whose unpickling resolves (and calls) the final global."""
     m, n = FINALS[final]
     import importlib
-    target = getattr(importlib.import_module(m), n)
+    import functools
+    target = functools.reduce(getattr, n.split("."), importlib.import_module(m))
 
     class P:
         def __reduce__(self):
             return (target, ("nested",)) if final == "forbidden" else (target, ())
+    if final.startswith("dotted"):
+        if kind != "bare":
+            return None
+        # STACK_GLOBAL / GLOBAL with a dotted name under PROTO 4; only resolved, never called
+        sg = b"\x80\x04\x8c" + bytes([len(m)]) + m.encode() + b"\x8c" + bytes([len(n)]) + n.encode() + b"\x93."
+        return sg
     if kind == "bare":
         return b"c" + m.encode() + b"\n" + n.encode() + b"\n" + (b"(S'nested'\ntR." if final == "forbidden" else b")R.")
     buf = io.BytesIO()
@@ -134,6 +144,8 @@ def run_case(ctx, mods, base, cache, chain, kind, final, entry, aname):
     ck = (kind, final)
     if ck not in cache:
         cache[ck] = inner_payload(kind, final, torch)
+    if cache[ck] is None:
+        return
     data = build(chain, cache[ck])
     key = h(data + entry.encode() + aname.encode())
     chain_globals = globals_in(chain, kind, final, None)
